@@ -8,6 +8,7 @@ import (
 	"runtime"
 	"sort"
 	"strings"
+	"sync/atomic"
 	"syscall"
 	"unsafe"
 
@@ -746,8 +747,10 @@ func raceBody(c *column.Collection, cols []ColSpec, stable []uint32, tp *ThreadP
 				}
 			case "mktrigger":
 				name := fmt.Sprintf("rtg%d_%d_%d", ti, xi, oi)
-				n := 0
-				c.CreateTrigger(name, op.Col, func(r column.Reader) { n++ })
+				// (commits to different blocks call a trigger concurrently: the callback is the
+				// client's code and must be safe for that, so it counts atomically)
+				var n atomic.Int64
+				c.CreateTrigger(name, op.Col, func(r column.Reader) { n.Add(1) })
 				rYield(ptBetween)
 				c.DropTrigger(name)
 			case "count":
